@@ -50,6 +50,20 @@ extern "C" {
  */
 int32_t jls_bit_shift_array_right(uint8_t bits, void * data, size_t size);
 
+/**
+ * @brief Copy a run of bits between arrays with arbitrary bit alignment.
+ *
+ * Bits are numbered LSB first within each byte.  Bits of dst outside
+ * [dst_bit, dst_bit + bit_count) are not modified.
+ *
+ * @param dst The destination array.
+ * @param dst_bit The bit offset into dst for the first bit.
+ * @param src The source array.
+ * @param src_bit The bit offset into src for the first bit.
+ * @param bit_count The number of bits to copy.
+ */
+void jls_bit_copy(uint8_t * dst, uint64_t dst_bit, const uint8_t * src, uint64_t src_bit, uint64_t bit_count);
+
 
 /** @} */
 
